@@ -118,6 +118,7 @@ def part_signing(ctx, wt, m, n, how, thorough):
                           {'op': 'address', 'wt': wt, 'm': m, 'n': n, 'handoff': how, 'observed': k.address, 'expected (sorted keys, Lean)': addr})
             return
     txn = [0]
+    auto_done = [False]
     sequences = []
     for k in range(1, n + 1):
         sequences += list(itertools.permutations(range(n), k))
@@ -143,12 +144,18 @@ def part_signing(ctx, wt, m, n, how, thorough):
         rbf = ctx.rng.random() < 0.4          # the creator signals replace-by-fee: a sequence the importing wallet would not choose itself
         rep['created_by'] = created_by
         rep['replace_by_fee'] = rbf
+        # the first ceremony of every group lets the wallet choose the inputs itself (nothing else is spendable yet); the others name them
+        auto = not auto_done[0] and len(set(seq)) >= m
+        if auto:
+            auto_done[0] = True
+        rep['inputs_chosen_by'] = 'wallet' if auto else 'caller'
+        ia = None if auto else [(txid, on) for on in outns]
         try:
             if created_by == 'send':
                 # the usual way: send() without broadcasting creates, signs and serialises the transaction
-                t = first.send([(EXT, 100000)], input_arr=[(txid, on) for on in outns], fee=5000, broadcast=False, replace_by_fee=rbf)
+                t = first.send([(EXT, 100000)], input_arr=ia, fee=5000, broadcast=False, replace_by_fee=rbf, min_confirms=0)
             else:
-                t = first.transaction_create([(EXT, 100000)], input_arr=[(txid, on) for on in outns], fee=5000, replace_by_fee=rbf)
+                t = first.transaction_create([(EXT, 100000)], input_arr=ia, fee=5000, replace_by_fee=rbf, min_confirms=0)
                 t.sign()
         except Exception as e:
             ctx.violation('the first cosigner cannot create and sign the spend', dict(rep, error='%s: %s' % (type(e).__name__, str(e)[:80])))
@@ -157,6 +164,11 @@ def part_signing(ctx, wt, m, n, how, thorough):
             ctx.violation('redeem script of the spend differs from the sorted-key script', dict(rep, observed=t.inputs[0].redeemscript.hex(), expected=script))
             return
         cur = t
+        # what the creator spends (all the named outputs; a subset of them when the wallet chose): every later holder spends the same
+        created_outpoints = sorted((i_.prev_txid.hex(), i_.output_n_int) for i_ in t.inputs)
+        if not auto and created_outpoints != sorted((txid, on) for on in outns):
+            ctx.violation('the created spend does not spend the outputs it was given', dict(rep, observed=created_outpoints))
+            return
         trace = []
         ok = True
         for step, signer in enumerate(seq):
@@ -178,7 +190,7 @@ def part_signing(ctx, wt, m, n, how, thorough):
             model = run_driver(['ms_signed %d %d %s' % (m, n, ','.join(str(pos[s]) for s in prefix))])[0].split(' | ')[0]
             msig, mvalid = model.split(' valid=')
             nsig = min(len(i_.signatures) for i_ in cur.inputs)
-            if sorted((i_.prev_txid.hex(), i_.output_n_int) for i_ in cur.inputs) != sorted((txid, on) for on in outns):
+            if sorted((i_.prev_txid.hex(), i_.output_n_int) for i_ in cur.inputs) != created_outpoints:
                 trace.append('the imported transaction spends other outpoints: %s' % [(i_.prev_txid.hex()[:8], i_.output_n_int) for i_ in cur.inputs])
                 ok = False
                 break
